@@ -11,7 +11,10 @@ import json
 import gen, impl, model
 
 
-def observe(ctx, doc, insts=None, text=None, macro_docs=(), modes=("bool", "all", "first")):
+def observe(ctx, doc, insts=None, text=None, macro_docs=(), modes=("bool", "all", "first"), spec_on="impl-stream"):
+    """spec_on: 'impl-stream' evaluates model and specification on the implementation's own decoded stream
+    (compiler/matcher properties, insensitive to the parser); 'listing' lets the model parse the listing
+    (end-to-end properties: a parser deviation then shows up as a stream disagreement and in the verdict)"""
     sc, d = ctx.scratch, ctx.driver
     if text is None:
         text = gen.render_listing(insts, ctx.g)
@@ -30,7 +33,7 @@ def observe(ctx, doc, insts=None, text=None, macro_docs=(), modes=("bool", "all"
     dec = gen.decode_stream(o["impl_stream"][1])
     o["decoded"] = dec
     req = {"op": "judge", "doc": model.y2j(doc), "macroDocs": [model.y2j(m) for m in macro_docs]}
-    if dec is not None:
+    if dec is not None and spec_on == "impl-stream":
         req["insts"] = [[a, m, ops] for a, m, ops in dec]
     else:
         req["text"] = text
